@@ -40,6 +40,26 @@ def run(ctx):
         for name, why in diag:
             ctx.issue(f"C06:method:{name}", f"Builder::{name}: {why}", witness={"method": name, "reason": why,
                       "replay": f"buildrt {name}/... (call with distinct sentinel arguments)"}, found_input=True, kind="oracle")
+        # "the emitted instruction has the method's opcode": the method is named after the opcode it emits (snake case of the
+        # specification name; `insert_` prefix for the form with an insertion point, `_id` suffix for type methods with an explicit id)
+        import re as _re
+        exceptions = {"Return": "ret", "ReturnValue": "ret_value", "ConvertFToBF16INTEL": "convert_f_to_bf16intel"}
+        bad_names = []
+        for m in T["builder"]:
+            if m["kind"] != "emit":
+                continue
+            base = m["name"][7:] if m["name"].startswith("insert_") else m["name"]
+            if base.endswith("_id") and m["opname"].startswith("Type"):
+                base = base[:-3]
+            want = exceptions.get(m["opname"]) or _re.sub(r"(?<=[a-z0-9])([A-Z])|(?<=[A-Z])([A-Z])(?=[a-z])",
+                                                          lambda x: "_" + (x.group(1) or x.group(2)), m["opname"]).lower()
+            if base != want:
+                bad_names.append((m["name"], m["opname"]))
+        ctx.oblige("method names: every generated instruction-emitting method emits the opcode it is named after", not bad_names)
+        for name, opname in bad_names:
+            ctx.issue(f"C06:method-opcode:{name}", f"Builder::{name} emits Op{opname}, not the opcode it is named after",
+                      witness={"method": name, "emits": opname, "replay": f"buildrt {name}/... (any arguments): the instruction's opcode is Op{opname}"},
+                      found_input=True, kind="oracle")
         explained = bool(diag)
         for n, e in failing:
             ctx.log(f"obligation failed: {n}: {e['msg'][:120]}")
@@ -50,7 +70,7 @@ def run(ctx):
     rnd = random.Random(ctx.seed)
     g = buildgen.BuildGen(T, rnd)
     from props import c12 as c12mod
-    c12mod.Sim.block_methods = {m["name"] for m in g.methods if m["sink"][0] == "block"}
+    c12mod.Sim.block_methods = {m["name"]: False for m in g.methods if m["sink"][0] == "block"}
     skip = {k.split(":")[2] for k in known if k.startswith("C06:method:")}
     skip |= {"type_struct_continued_intel"}
     reqs = []
